@@ -89,6 +89,21 @@ func c20Position(c *fw.Ctx, r *rand.Rand, h gen.Hist) {
 		{"turochamp-material", turochamp.Material{}, true},
 		{fmt.Sprintf("bernstein(factor=%d)", factor), bernstein.Eval{Factor: factor}, true},
 	}
+	// The same position without its history is evaluated first (and only on this side of the mirror): a value
+	// that leaks from one board to another with the same placement (a cache keyed by position alone) then
+	// shows up as an asymmetry below.
+	if fb, ok := boardOf(gen.Hist{Start: p}); ok && len(h.Moves) > 0 {
+		for _, e := range evs {
+			guard(c, "eval:panic:"+e.name, e.name+".Evaluate (history-free) in "+desc(), func() {
+				if v := e.e.Evaluate(ctx, fb); !finite(v) {
+					c.Violate("eval:nonfinite:"+e.name, "%s evaluates %q to %v", e.name, p.FEN(), float64(v))
+				}
+			})
+		}
+		if b.HasCastled(board.White) || b.HasCastled(board.Black) {
+			c.Count("castled_histories", 1)
+		}
+	}
 	for _, e := range evs {
 		guard(c, "eval:panic:"+e.name, e.name+".Evaluate in "+desc(), func() {
 			c.Eval(1)
@@ -244,7 +259,7 @@ func init() {
 			return l
 		},
 		Floors: func(string) map[string]int64 {
-			return map[string]int64{"positions": 2000, "mirror_checks": 8000, "plausible_checks": 8000, "book_lookups": 9000, "book_hits": 20, "considerable_selected": 500, "boxed_king_positions": 300, "book_variant_lookups": 200}
+			return map[string]int64{"positions": 2000, "mirror_checks": 8000, "plausible_checks": 8000, "book_lookups": 9000, "book_hits": 20, "considerable_selected": 500, "boxed_king_positions": 300, "castled_histories": 100, "book_variant_lookups": 200}
 		},
 		Run: func(c *fw.Ctx, cs fw.Case) {
 			r := cs.Rand()
@@ -266,7 +281,11 @@ func init() {
 					case 1:
 						h = gen.Playout(r, smallMaterial(r), r.Intn(12), gen.Neutral)
 					case 2:
-						h = gen.Playout(r, gen.Starts()[0], r.Intn(40), gen.Biases[r.Intn(len(gen.Biases))])
+						bias := gen.Biases[r.Intn(len(gen.Biases))]
+						if r.Intn(2) == 0 {
+							bias = gen.CastleShuffle
+						}
+						h = gen.Playout(r, gen.Starts()[[]int{0, 0, 8, 25, 26}[r.Intn(5)]], 4+r.Intn(40), bias)
 					default:
 						h = randomHist(r, 70)
 					}
